@@ -7,7 +7,7 @@ use crate::monitor::verifier::RecVerifier;
 use crate::monitor::worker::*;
 use crate::util::par::{guard, par_for};
 use crate::util::report::{Ctx, Meta, Report};
-use crate::util::rng::{hash_bytes, Rng};
+use crate::util::rng::{hash_bytes, hash_str, Rng};
 use crate::util::sha256_hex;
 use base64::Engine;
 use rpm::Package;
@@ -372,6 +372,33 @@ fn run(ctx: &Ctx, rep: &Report) {
                 rep.inconclusive(format!("unmodified package signed with {} does not verify", key.name));
                 continue;
             }
+            // ---- (c) histories on one OBJECT: the package above has just verified; its public fields are
+            // then changed in memory (payload bytes, or the whole payload / metadata of another package) and it is
+            // verified again - on the same object, on a clone taken after the successful verification and on
+            // a clone that is itself verified first. Success after the change is a violation: verification
+            // is a function of the bytes the object holds now, not of what it held when it was last asked
+            // (seeded change C02-s: verdict of verify_digests() remembered per object)
+            for (mi, mname) in OBJECT_MUTATIONS.iter().enumerate() {
+                for (hi, hname) in ["same-object", "clone-of-verified", "clone-verified-again"].iter().enumerate() {
+                    rep.eval(1);
+                    match guard(|| object_history(&pkg, &key.verifier, mi, hi)) {
+                        Ok(Some((sig_ok, dig_ok))) => {
+                            rep.nontrivial(hash_str(&format!("c|{ki}|{bn}|{mi}|{hi}")));
+                            rep.count("c.object_histories_judged", 1);
+                            if sig_ok || dig_ok {
+                                rep.violation(
+                                    format!("changed-object-verifies:{mname}:{hname}"),
+                                    format!("a package signed with {} verified, then its in-memory content was changed ({mname}, {hname}): verify_signature ok={sig_ok}, verify_digests ok={dig_ok}", key.name),
+                                    json!({"part": "c", "key": key.name, "mutation": mi, "history": hi, "base_hex": hex::encode(&bytes)}),
+                                    bytes.len() as u64,
+                                );
+                            }
+                        }
+                        Ok(None) => rep.count("c.object_histories_not_applicable", 1),
+                        Err(_) => rep.count("c.panicked(judged by C04)", 1),
+                    }
+                }
+            }
             let basefile = dir.join(format!("base-{ki}-{bn}.rpm"));
             let keyfile = dir.join(format!("key-{ki}.asc"));
             std::fs::write(&basefile, &bytes).unwrap();
@@ -526,6 +553,39 @@ fn run(ctx: &Ctx, rep: &Report) {
     }
 }
 
+const OBJECT_MUTATIONS: [&str; 6] = ["first-payload-bit", "last-payload-bit", "middle-payload-byte", "payload-byte-appended", "payload-truncated-by-one", "payload-emptied"];
+
+/// (c): `pkg` verifies. Returns what verify_signature / verify_digests say about an object whose payload
+/// bytes were changed after a successful verification (None: the change does not apply to this payload).
+fn object_history(pkg: &Package, verifier: &rpm::signature::pgp::Verifier, mutation: usize, history: usize) -> Option<(bool, bool)> {
+    let mut p = pkg.clone();
+    if p.verify_signature(verifier).is_err() || p.verify_digests().is_err() {
+        return None;
+    }
+    if history >= 1 {
+        p = p.clone();
+    }
+    if history == 2 && p.verify_signature(verifier).is_err() {
+        return None;
+    }
+    let n = p.content.len();
+    match mutation {
+        0 if n > 0 => p.content[0] ^= 1,
+        1 if n > 0 => p.content[n - 1] ^= 0x80,
+        2 if n > 2 => p.content[n / 2] = p.content[n / 2].wrapping_add(1),
+        3 => p.content.push(0),
+        4 if n > 0 => p.content.truncate(n - 1),
+        5 if n > 0 => p.content.clear(),
+        _ => return None,
+    }
+    if p.content == pkg.content {
+        return None;
+    }
+    let dig_ok = p.verify_digests().is_ok();
+    let sig_ok = p.verify_signature(verifier).is_ok();
+    Some((sig_ok, dig_ok))
+}
+
 fn mcpio_compress(comp: &str) -> Vec<u8> {
     crate::model::cpio::compress(comp, b"")
 }
@@ -544,6 +604,18 @@ fn replay(ctx: &Ctx, w: &serde_json::Value, rep: &Report) {
             for (k, what) in vs {
                 println!("  {k}: {what}");
                 rep.violation(k, what, w.clone(), 0);
+            }
+        }
+    } else if w["part"].as_str() == Some("c") {
+        let keys = load_keys(&ctx.repo_dir).unwrap_or_default();
+        let base = hex::decode(w["base_hex"].as_str().unwrap_or("")).unwrap_or_default();
+        if let (Some(k), Ok(orig)) = (keys.iter().find(|k| Some(k.name) == w["key"].as_str()), Package::parse(&mut &base[..])) {
+            let r = object_history(&orig, &k.verifier, w["mutation"].as_u64().unwrap_or(0) as usize, w["history"].as_u64().unwrap_or(0) as usize);
+            println!("monitor: object history -> (verify_signature ok, verify_digests ok) = {r:?}");
+            if let Some((s, d)) = r {
+                if s || d {
+                    rep.violation("replay", "changed object verifies", w.clone(), 0);
+                }
             }
         }
     } else {
